@@ -42,16 +42,11 @@ func NewFilter(matchers []*labels.Matcher) Filter {
 func (f filter) Matchers() []*labels.Matcher { return f.matchers }
 
 func (f filter) Matches(series storage.Series) bool {
-	if len(f.matcherSet) == 0 {
-		return true
-	}
-
-	for _, l := range series.Labels() {
-		m, ok := f.matcherSet[l.Name]
-		if !ok {
-			continue
-		}
-		if !m.Matches(l.Value) {
+	// Every matcher has to hold, also those on labels which the series
+	// does not have (such a label has the empty value).
+	lbls := series.Labels()
+	for _, m := range f.matchers {
+		if !m.Matches(lbls.Get(m.Name)) {
 			return false
 		}
 	}
